@@ -239,6 +239,72 @@ func roundRing(r *rng, c ipt, rad int, n int) []ipt {
 	return closeRing(pts)
 }
 
+func gcdI(a, b int) int {
+	if a < 0 {
+		a = -a
+	}
+	if b < 0 {
+		b = -b
+	}
+	for b != 0 {
+		a, b = b, a%b
+	}
+	return a
+}
+
+// the same ring with its edges cut at lattice points until it has at least `want` segments
+// (collinear extra vertices: the region is unchanged, the index gets real work to do)
+func subdivideRing(r *rng, ring []ipt, want int) []ipt {
+	cur := append([]ipt{}, ring...)
+	for round := 0; len(cur)-1 < want && round < 8; round++ {
+		var nxt []ipt
+		for i := 0; i+1 < len(cur); i++ {
+			p, q := cur[i], cur[i+1]
+			nxt = append(nxt, p)
+			g := gcdI(q.x-p.x, q.y-p.y)
+			if g >= 2 {
+				k := g / 2
+				if r.coin(0.3) {
+					k = r.rangeI(1, g-1)
+				}
+				nxt = append(nxt, ipt{p.x + (q.x-p.x)/g*k, p.y + (q.y-p.y)/g*k})
+			}
+		}
+		nxt = append(nxt, cur[len(cur)-1])
+		if len(nxt) == len(cur) {
+			break
+		}
+		cur = nxt
+	}
+	return cur
+}
+
+// move one vertex of a (closed) ring onto a lattice point in the interior of a non-adjacent edge:
+// a ring that touches (or crosses) itself
+func pinchRing(r *rng, ring []ipt) []ipt {
+	n := len(ring) - 1
+	if n < 5 {
+		return ring
+	}
+	for tries := 0; tries < 20; tries++ {
+		v := r.rangeI(1, n-1)
+		e := r.intn(n)
+		if e == v || e == v-1 || (e+1)%n == v || e == (v+1)%n {
+			continue
+		}
+		p, q := ring[e], ring[e+1]
+		g := gcdI(q.x-p.x, q.y-p.y)
+		if g < 2 {
+			continue
+		}
+		k := r.rangeI(1, g-1)
+		out := append([]ipt{}, ring...)
+		out[v] = ipt{p.x + (q.x-p.x)/g*k, p.y + (q.y-p.y)/g*k}
+		return out
+	}
+	return ring
+}
+
 // a square with several square holes
 func multiHolePoly(r *rng, u int) shape {
 	n := r.rangeI(2, 3)
@@ -355,6 +421,12 @@ func genC19(o *out, r *rng, thorough bool) {
 	L := 5
 	if thorough {
 		L = 7
+	}
+	// the kernels regenerated from the source, on arbitrary doubles
+	if thorough {
+		genKern(o, r, 400000)
+	} else {
+		genKern(o, r, 20000)
 	}
 	// exhaustive (segment, point) triples on the LxL lattice
 	for a := 0; a < L*L; a++ {
@@ -530,6 +602,36 @@ func halfLattice(n int) []ipt {
 	return ps
 }
 
+// a square with two or three holes that overlap, nest or touch one another (the hole loop of
+// Poly.ContainsPoint must not stop at a hole whose boundary carries the point)
+func overlapHolesPoly(r *rng, u int) shape {
+	s := shape{kind: "poly", rings: [][]ipt{rectRing(0, 0, 20*u, 20*u)}}
+	x0, y0 := r.rangeI(1, 4)*2*u, r.rangeI(1, 4)*2*u
+	w, h := r.rangeI(2, 4)*2*u, r.rangeI(2, 4)*2*u
+	a := rectRing(x0, y0, x0+w, y0+h)
+	var b []ipt
+	switch r.intn(4) {
+	case 0: // overlapping
+		b = rectRing(x0+w/2, y0+h/2, x0+w/2+w, y0+h/2+h)
+	case 1: // nested
+		b = rectRing(x0-2*u, y0-2*u, x0+w+2*u, y0+h+2*u)
+	case 2: // sharing an edge
+		b = rectRing(x0+w, y0, x0+w+2*u, y0+h)
+	default: // crossing
+		b = rectRing(x0+2*u, y0-2*u, x0+w-2*u+2*u, y0+h+2*u)
+	}
+	s.rings = append(s.rings, a, b)
+	if r.coin(0.3) {
+		s.rings = append(s.rings, starRing(r, x0+w, y0+h, 2, r.rangeI(3, 5), 2*u))
+	}
+	// the order of the holes matters to a loop that stops early
+	for k := len(s.rings) - 1; k > 1; k-- {
+		j := 1 + r.intn(k)
+		s.rings[k], s.rings[j] = s.rings[j], s.rings[k]
+	}
+	return s
+}
+
 // C01: membership under every index configuration
 func genC01(o *out, r *rng, thorough bool) {
 	// exhaustive rings of ≤ L vertices on the 3x3 lattice, all half-step query points
@@ -589,6 +691,9 @@ func genC01(o *out, r *rng, thorough bool) {
 			if r.coin(0.5) {
 				s.rings = append(s.rings, starRing(r, 0, 0, 3, r.rangeI(3, 8), u))
 			}
+		}
+		if i%10 == 3 {
+			s = overlapHolesPoly(r, u)
 		}
 		if i%10 == 7 {
 			// item-width boundaries of the compressed indexes: 255..258 segments, the last segment decides
@@ -768,6 +873,20 @@ func genC04(o *out, r *rng, thorough bool) {
 		a := genPoly(r, u)
 		if r.coin(0.2) {
 			a = genProbe(r, a, u)
+		}
+		if a.kind == "poly" && r.coin(0.5) {
+			// enough segments for the R-tree to split (>= 17) or the quadtree to descend, so that
+			// the visit orders of the index kinds really differ; sometimes a self-touching ring
+			want := r.pick([]int{17, 20, 33, 40, 70})
+			if r.coin(0.4) {
+				a.rings[0] = pinchRing(r, a.rings[0])
+			}
+			for k := range a.rings {
+				a.rings[k] = subdivideRing(r, a.rings[k], want)
+			}
+			if r.coin(0.3) {
+				a.rings[0] = pinchRing(r, a.rings[0])
+			}
 		}
 		b := genProbe(r, a, u)
 		cfgs := [][2]int{{0, 0}, {1, 1}, {2, 1}, {1, 3}, {2, 4}}
@@ -1017,6 +1136,29 @@ func genC12(o *out, r *rng, thorough bool) {
 			o.op("move %s %d %d %s", idb, dx, dy, idb+"m")
 			o.op("same %d pred %s %s", g, ida+"m", idb+"m")
 			o.op("same %d pred %s %s", g+1, idb+"m", ida+"m")
+		}
+		// Move of a shape with enough points for the default index (>= 64), created with each index kind
+		if a.kind == "poly" && (r.coin(0.04) || (thorough && r.coin(0.2))) {
+			big := shape{kind: "poly"}
+			for _, ring := range a.rings {
+				big.rings = append(big.rings, subdivideRing(r, ring, 70))
+			}
+			g3 := o.newGroup()
+			g4 := o.newGroup()
+			idb := o.newID("T")
+			o.op("def %s %s", idb, b.defStr(0, 0))
+			o.op("move %s %d %d %s", idb, dx, dy, idb+"m")
+			id0 := o.newID("T")
+			o.op("def %s %s", id0, big.defStr(0, 0))
+			o.op("same %d pred %s %s", g3, id0, idb)
+			o.op("same %d pred %s %s", g4, idb, id0)
+			for _, cfg := range [][2]int{{0, 64}, {1, 64}, {2, 64}, {1, 1}} {
+				ida := o.newID("T")
+				o.op("def %s %s", ida, big.defStr(cfg[0], cfg[1]))
+				o.op("move %s %d %d %s", ida, dx, dy, ida+"m")
+				o.op("same %d pred %s %s", g3, ida+"m", idb+"m")
+				o.op("same %d pred %s %s", g4, idb+"m", ida+"m")
+			}
 		}
 		// re-encodings of one operand: rotate start vertex, reverse, drop closing vertex
 		reenc := func(s shape) []shape {
